@@ -380,6 +380,14 @@ theorem gen_whitened_eq_model (e : Env M n r α) :
     refine ⟨True.intro, ?_⟩
     apply toMatrix_injective; simp [sub_eq_add_neg]
 
+/-- The `settings.trace_mode` branch of `VariationalStrategy.forward` (dense arithmetic) computes the same mean and
+covariance as the default lazy branch. -/
+theorem gen_whitened_trace_eq (e : Env M n r α) :
+    wMeanTrace e = wMean e ∧ wCovTrace e = wCov e ∧ wCovTraceDelta e = wCovDelta e := by
+  refine ⟨rfl, ?_, ?_⟩ <;>
+  · apply toMatrix_injective
+    simp [wCovTrace, wCov, wCovTraceDelta, wCovDelta, Matrix.mul_assoc]
+
 /-- **gen_whitened_eq_closed_form.**  The mean and covariance that the code of `VariationalStrategy.forward` computes
 (generated expressions), under the contracts of its primitives (`L Lᵀ` = the generated Cholesky argument, `Li = L⁻¹`),
 equal the property's closed form `mX + Kxz K̃⁻¹(m − m_z)`, `K̃xx − Kxz K̃⁻¹(K̃ − S)K̃⁻¹Kzx` for `u = m_z + L e`. -/
